@@ -43,7 +43,7 @@ for p in props:
         if os.path.exists(os.path.join(common.COQ, t[:-1])):
             targets.append(t)
 # heavy bridge proofs that depend on generated syntax (otherwise built by the first run of the check)
-targets += ["Proofs/InstanceRunProofs.vo", "Proofs/PhoutRunProofs.vo"]
+targets += ["Proofs/InstanceRunProofs.vo", "Proofs/PhoutRunProofs.vo", "Proofs/FullScanProofs.vo"]
 ok = ctx.coq(targets, what="setup coq build")
 for d in sorted(glob.glob(os.path.join(common.HARNESS, "cmd", "h*"))):
     ctx.build_harness(os.path.basename(d))
